@@ -3,6 +3,7 @@ package mc
 import (
 	"fmt"
 	"strings"
+	"time"
 
 	"github.com/pascaldekloe/mqtt"
 )
@@ -256,7 +257,7 @@ func (w *World) connLostBefore(c *simConn, i int) bool {
 			continue
 		}
 		switch e.K {
-		case "cut", "close", "bk-violation":
+		case "cut", "close", "bk-violation", "bk-hostile":
 			return true
 		case "write", "read":
 			if e.R != "" && !strings.Contains(e.R, "timeout") {
@@ -317,6 +318,66 @@ func (w *World) monitorProgress() {
 			op := a.spec.Ops[a.pc]
 			if op.Kind != "online" && op.Kind != "offline" {
 				w.Violate("C10", "request-not-released#"+op.Kind, "%s op %d (%s) still pending at quiescence", a.spec.Name, a.pc, op.Kind)
+			}
+		}
+	}
+}
+
+// monitorBackoff checks the ReadBackoff clause of C10: no wait after nil or a
+// BigMessage, ReconnectWaitMax after a refusal, otherwise a wait between
+// ReconnectWaitMin and ReconnectWaitMax that doubles on consecutive failures
+// and restarts after an established connection (errors that are not a
+// connection loss — Persistence failures while connected — wait one second).
+func (w *World) monitorBackoff() {
+	min := int(w.scn.Config.ReconnectWaitMin / time.Millisecond)
+	max := int(w.scn.Config.ReconnectWaitMax / time.Millisecond)
+	prev := 0 // previous connection-loss wait since the last established connection
+	for _, e := range w.log {
+		switch e.K {
+		case "crash":
+			prev = 0
+		case "ret":
+			// a successful return proves an established connection (CONNACK
+			// plus retransmission); the ramp restarts
+			if e.S == "rs" && (e.R == "nil" || strings.HasPrefix(e.R, "BigMessage")) {
+				prev = 0
+			}
+		case "backoff":
+			switch {
+			case e.N == -1:
+				w.Violate("C10", "backoff-after-success", "ReadBackoff after %s returned a channel that is not closed", e.R)
+			case strings.Contains(e.R, "Refused"):
+				if e.N != max {
+					w.Violate("C10", "backoff-refused", "ReadBackoff after a refused connect waited %d ms, want ReconnectWaitMax %d ms", e.N, max)
+				}
+			case e.N == 1000:
+				// not a connection loss
+			case e.N < min || e.N > max:
+				w.Violate("C10", "backoff-out-of-bounds", "ReadBackoff after %s waited %d ms, outside [%d, %d] ms", e.R, e.N, min, max)
+			default:
+				// the wait is ReconnectWaitMin doubled once per consecutive
+				// failed attempt, capped; an attempt that was accepted but
+				// failed during retransmission counts as failed
+				want := min
+				if prev != 0 {
+					want = prev * 2
+					if want > max {
+						want = max
+					}
+				}
+				ladder := false
+				for v := min; v <= max; v *= 2 {
+					if e.N == v {
+						ladder = true
+					}
+				}
+				if e.N == max {
+					ladder = true
+				}
+				if !ladder || e.N > want {
+					w.Violate("C10", "backoff-ramp", "ReadBackoff waited %d ms after a previous %d ms, want at most %d ms on the doubling ladder from %d ms", e.N, prev, want, min)
+				}
+				prev = e.N
 			}
 		}
 	}
